@@ -30,7 +30,7 @@ ASSUMPTIONS = [
 N = {'quick': 500, 'thorough': 2500}
 STORAGES = ['new_pickle', 'new_copy', 'wu', 'cache', 'cache_eager', 'diskcache', 'cache_short', 'cache_over_copy']
 READS = ['idx', 'neg', 'np', 'key', 'slice', 'iter', 'items', 'copy', 'copyf', 'view', 'iter_mut', 'items_mut',
-         'prefetch_twice']
+         'prefetch_twice', 'cycle_mut']
 MUTS = ['set', 'append', 'del', 'clear', 'nested', 'array', 'array_scale']
 BIG = 131072
 
@@ -245,6 +245,21 @@ class World:
                 mutate(obj, 'set')
                 mutate(obj, 'array')
             return [(i, o) for i, o in out] + [('mutated-in-loop', None)]
+        if how == 'cycle_mut':
+            # two rounds through ds.cycle(), every example changed as soon as it is received: the second round hands
+            # out fresh examples again, not the objects of the first
+            import itertools
+            out = []
+            it = iter(ds.cycle())
+            try:
+                for j, obj in enumerate(itertools.islice(it, 2 * n)):
+                    out.append((j % n, copy.deepcopy(obj)))
+                    mutate(obj, 'set')
+                    mutate(obj, 'array')
+            finally:
+                if hasattr(it, 'close'):
+                    it.close()
+            return out + [('mutated-in-loop', None)]
         if how == 'prefetch_twice' and self.case['storage'] in ('cache', 'diskcache'):
             # two concurrent misses of a lazy cache over the RAW upstream would both hand out the upstream's own
             # object (an artefact of the raw upstream, not of the cache): use a plain read there
